@@ -22,6 +22,7 @@ type GCase struct {
 	Type            string `json:"type"` // variant/file/Message
 	Value           []byte `json:"value"`
 	EmptyContainers bool   `json:"empty_containers,omitempty"` // nil slices/maps replaced by empty non-nil ones
+	NilMapValue     bool   `json:"nil_map_value,omitempty"`    // one message-typed map value replaced by a nil pointer
 }
 
 func (c *GCase) sample() map[string]any {
@@ -45,6 +46,9 @@ func (c *GCase) build() (*MsgType, *dynamicpb.Message, any) {
 	FromDynamic(dyn, m)
 	if c.EmptyContainers {
 		setEmptyContainers(m)
+	}
+	if c.NilMapValue {
+		nilOneMapValue(m)
 	}
 	return mt, dyn, m
 }
